@@ -17,8 +17,12 @@
 #include <hgraph/types/graph_wiring.h>
 #include <hgraph/types/metadata/type_registry.h>
 #include <hgraph/types/value/value.h>
+#include <hgraph/util/verif_hook.h>
 
 #include <algorithm>
+#include <atomic>
+#include <cstdlib>
+#include <cstring>
 #include <map>
 #include <optional>
 #include <stdexcept>
@@ -339,6 +343,71 @@ namespace
         }
     };
 
+    // ---- feedback loops INSIDE child graphs (kind 4: nested_<> depth 1/2, kind 5: map_ body, one child per key).
+    // variant 0: delay line   fb = feedback<TS<Int>>(); fb(ts); written = ts, delivered = fb()
+    // variant 1: accumulator  fb = feedback<TS<Int>>(0); total = add(ts, passive(fb())); fb(total); written = total
+    // Values carry the key (key * 100000 + ...) so the recorders need no key; lines 34 side t v (1 written, 2 delivered).
+    struct WRecWritten
+    {
+        static constexpr auto name = "hgv_rec_written";
+        static void eval(In<"ts", TS<Int>> ts, DateTime now) { g_wout->line({34, 1, us(now), static_cast<std::int64_t>(ts.value())}); }
+    };
+    struct WRecDelivered
+    {
+        static constexpr auto name = "hgv_rec_delivered";
+        static void eval(In<"ts", TS<Int>> ts, DateTime now) { g_wout->line({34, 2, us(now), static_cast<std::int64_t>(ts.value())}); }
+    };
+    struct WAddKeep
+    {
+        // total = ts + (fed back total mod 100000): stays inside the key's value range
+        static constexpr auto name = "hgv_add_keep";
+        static void eval(In<"lhs", TS<Int>> lhs, In<"rhs", TS<Int>> rhs, Out<TS<Int>> out)
+        {
+            out.set(lhs.value() + (rhs.value() % 1000) * 7 % 1000);
+        }
+    };
+    struct WChildDelay
+    {
+        static constexpr auto name = "hgv_child_delay";
+        static Port<TS<Int>> compose(Wiring &w, Port<TS<Int>> ts)
+        {
+            auto fb = stdlib::feedback<TS<Int>>(w);
+            fb(ts);
+            wire<WRecWritten>(w, ts);
+            wire<WRecDelivered>(w, fb());
+            return fb();
+        }
+    };
+    struct WChildAcc
+    {
+        static constexpr auto name = "hgv_child_acc";
+        static Port<TS<Int>> compose(Wiring &w, Port<TS<Int>> ts)
+        {
+            auto fb    = stdlib::feedback<TS<Int>>(w);
+            auto total = wire<WAddKeep>(w, ts, passive(fb()));
+            auto first = wire<WFirst>(w, ts, total);
+            fb(first);
+            wire<WRecWritten>(w, first);
+            wire<WRecDelivered>(w, fb());
+            return first;
+        }
+        // the loop needs a first value: until the feedback is valid the write is ts itself
+        struct WFirst
+        {
+            static constexpr auto name = "hgv_first";
+            static void eval(In<"ts", TS<Int>> ts, In<"total", TS<Int>, InputActivity::Active, InputValidity::Unchecked> total, Out<TS<Int>> out)
+            {
+                out.set(total.valid() && total.modified() ? total.value() : ts.value());
+            }
+        };
+    };
+    template <typename C>
+    struct WNest1
+    {
+        static constexpr auto name = "hgv_nest1";
+        static Port<TS<Int>> compose(Wiring &w, Port<TS<Int>> ts) { return nested_<C>(w, ts); }
+    };
+
     struct CycleObs : LifecycleObserver
     {
         hgv::Out *out;
@@ -377,6 +446,25 @@ namespace
                 wire<WDictProbe>(w, s, Int{1});
                 wire<WDictProbe>(w, fb(), Int{2});
             }
+            else if (kind == 4)
+            {
+                // passive_flag = variant, structural = nesting depth (1 or 2)
+                auto x = wire<WIntSource>(w);
+                if (passive_flag == 0)
+                {
+                    if (structural >= 2) { (void)nested_<WNest1<WChildDelay>>(w, x); } else { (void)nested_<WChildDelay>(w, x); }
+                }
+                else
+                {
+                    if (structural >= 2) { (void)nested_<WNest1<WChildAcc>>(w, x); } else { (void)nested_<WChildAcc>(w, x); }
+                }
+            }
+            else if (kind == 5)
+            {
+                auto d = wire<WDictSource>(w);
+                if (passive_flag == 0) { (void)wire<stdlib::map_>(w, fn<WChildDelay>(), d).template as<TSD<Int, TS<Int>>>(); }
+                else { (void)wire<stdlib::map_>(w, fn<WChildAcc>(), d).template as<TSD<Int, TS<Int>>>(); }
+            }
             else
             {
                 auto x  = wire<WIntSource>(w);
@@ -409,9 +497,23 @@ namespace
         }
     }
 
+    // ---- real-time executor under a virtual wall clock (case line "9 1"), through include/hgraph/util/verif_hook.h.
+    // The clock stands one microsecond before end_time: every scheduled cycle is already due (a lagging graph never
+    // waits) and runs at its own logical time; when nothing is due the loop waits for end_time - one microsecond of
+    // real time - and the clock then reads end_time, which ends the run.  Deterministic and as fast as simulation.
+    std::atomic<std::int64_t> g_vclock{0};
+    std::int64_t              g_vend{0};
+    std::int64_t rt_clock_cb(void *) { return g_vclock.load(); }
+    void         rt_sync_cb(const char *name, void *)
+    {
+        if (std::strcmp(name, "rt.wait.after") == 0) { g_vclock.store(g_vend); }
+    }
+
     void run_case(const hgv::Case &c, hgv::Out &out)
     {
         for (const Line &l : c) { if (l[0] == 7) { run_wired(c, out); return; } }
+        bool realtime = false;
+        for (const Line &l : c) { if (l[0] == 9 && l.size() > 1 && l[1] == 1) { realtime = true; } }
         auto       &registry = TypeRegistry::instance();
         const auto *int_meta = registry.register_scalar<std::int64_t>("int64");
         const auto *ts_int   = registry.ts(int_meta);
@@ -558,6 +660,24 @@ namespace
         Obs                  obs{&out, &ctx};
         GraphExecutorBuilder eb;
         eb.graph_builder(std::move(gb)).start_time(dt(start)).end_time(dt(end)).add_lifecycle_observer(&obs);
+        if (realtime)
+        {
+            eb.mode(GraphExecutorMode::RealTime);
+            g_vend = end;
+            g_vclock.store(end - 1);
+            verif::hooks().sync_context.store(nullptr);
+            verif::hooks().wall_context.store(nullptr);
+            verif::hooks().sync_point.store(&rt_sync_cb, std::memory_order_release);
+            verif::hooks().wall_clock.store(&rt_clock_cb, std::memory_order_release);
+        }
+        struct Unhook
+        {
+            ~Unhook()
+            {
+                verif::hooks().sync_point.store(nullptr, std::memory_order_release);
+                verif::hooks().wall_clock.store(nullptr, std::memory_order_release);
+            }
+        } unhook;
         try
         {
             GraphExecutorValue executor = eb.make_executor();
@@ -591,6 +711,8 @@ namespace
 int main(int argc, char **argv)
 {
     if (argc < 2) { std::fprintf(stderr, "usage: feedback_driver <batch>\n"); return 2; }
+    setenv("HGRAPH_VERIF", "1", 1);
+    stdlib::register_standard_operators();
     auto     batch = hgv::read_batch(argv[1]);
     hgv::Out out;
     for (const auto &c : batch)
